@@ -22,11 +22,11 @@ ASSUMPTIONS = ['reference matcher written from the README/docstring: list=any, o
                'missing/None matches only a None alternative, str filter=fnmatch against str values only, otherwise ==',
                'operator objects compare with Python semantics where the comparison is defined (None == None is a match for =), else no match']
 
-ATOMS = [None, True, False, 0, 1, 2.5, '', 'a', 'a*', '?b', '[ab]', {}, {'x': 1}]
-OPS = [{'operator': op, 'value': v} for op in ['=', '<', '<=', '>', '>=', '~'] for v in [0, 1, 'a', 2.5, None, {'x': 1}, [1, 'a']]]
+ATOMS = [None, True, False, 0, 1, 2.5, '', 'a', 'a*', '?b', '[ab]', {}, {'x': 1}, '1', 'True', 'None']
+OPS = [{'operator': op, 'value': v} for op in ['=', '<', '<=', '>', '>=', '~'] for v in [0, 1, 'a', 2.5, None, {'x': 1}, [1, 'a'], 'a*', '[ab]']]
 BASE = ATOMS + OPS
 ABSENT = '__absent__'
-VALUES = [ABSENT, None, True, False, 0, 1, 2, 1.5, '', 'a', 'ab', 'A', 'b]', [1], ['a'], {'x': 1}, {'py/type': 'm.C'}]
+VALUES = [ABSENT, None, True, False, 0, 1, 2, 1.5, '', 'a', 'ab', 'A', 'b]', '1', 'None', [1], ['a'], {'x': 1}, {'py/type': 'm.C'}]
 
 
 def bounds(tier):
@@ -117,6 +117,20 @@ def _eval(flt, md):
 _LIST = {}
 
 
+def _twin(f):
+    """A filter value of another type whose text form is the same (5 vs '5', None vs 'None' ...), if there is one."""
+    import ast
+    if isinstance(f, str):
+        try:
+            v = ast.literal_eval(f)
+            return v if not isinstance(v, str) else None
+        except Exception:
+            return None
+    if isinstance(f, (bool, int, float)) or f is None:
+        return str(f)
+    return None
+
+
 def _listing_probe(flt, md, kind='mem'):
     """One odd and one normal recording in a real cassette; the listing must still answer."""
     from playback.recordings.memory.memory_recording import MemoryRecording
@@ -138,6 +152,9 @@ def _listing_probe(flt, md, kind='mem'):
     c.save_recording(odd)
     c.save_recording(norm)
     try:
+        tw = _twin(flt.get('k')) if len(flt) == 1 else None
+        if tw is not None:   # the same cassette object first answers a lookup whose filter only LOOKS the same
+            list(c.iter_recording_ids('Op', metadata={'k': tw}))
         return ('ok', sorted(x.split('/')[-1] for x in c.iter_recording_ids('Op', metadata=flt)))
     except Exception as e:
         return ('raise', type(e).__name__)
